@@ -13,7 +13,8 @@
 //!  paths     root -> X -> Y with every combination of path spellings
 //!            (relative, ./, ../, via sub-directories, absolute, quoted,
 //!            escaped, missing), with same-named decoy files in the wrong
-//!            directories
+//!            directories; and root -> X, then (back in the root) -> Z: a
+//!            second include after returning from another directory
 //!  depth     include chains of length 0..7, cycles, re-entry after return,
 //!            under max_depth 0..8
 //! Oracle: a reference interpreter of the item lists (context = origin,
@@ -41,7 +42,7 @@ use std::rc::Rc;
 use std::sync::atomic::{AtomicUsize, Ordering};
 use std::sync::Mutex;
 
-pub const RULE: &str = "real file trees: root file = every item sequence (pre <= 2, post <= 2 over {relative-owner record, blank-owner record with omitted TTL and class, @ record in another class, $ORIGIN relative, $ORIGIN absolute, $TTL}) around one include, two sibling includes or a nested include (root -> mid -> leaf) of library files that are themselves every item sequence <= 2, x include origin {none, relative, absolute} x root preamble {none, full context}; every combination of include-path spellings over two levels with decoy files; include chains/cycles x max_depth 0..8. Oracle: reference interpreter of RFC 1035 s5.1 $INCLUDE semantics giving expected (path, line, record) lists and terminal outcome; plus in-memory parse of the flattened file where expressible";
+pub const RULE: &str = "real file trees: root file = every item sequence (pre <= 2, post <= 2 over {relative-owner record, blank-owner record with omitted TTL and class, @ record in another class, $ORIGIN relative, $ORIGIN absolute, $TTL}) around one include, two sibling includes or a nested include (root -> mid -> leaf) of library files that are themselves every item sequence <= 2, x include origin {none, relative, absolute} x root preamble {none, full context}; every combination of include-path spellings over two levels with decoy files, and a second include in the root after returning from an include in another directory; include chains/cycles x max_depth 0..8. Oracle: reference interpreter of RFC 1035 s5.1 $INCLUDE semantics giving expected (path, line, record) lists and terminal outcome; plus in-memory parse of the flattened file where expressible";
 
 // ------------------------------------------------------------- item model
 
@@ -1006,6 +1007,21 @@ fn paths_family(l: &mut Local, watch: &Watch, wk: &Work, lib: &Lib, p1: usize) {
     // plain: root includes X, X has no further include
     let body = vec![head.clone(), It::Include { text: text.clone(), denotes: den.clone(), origin: None }, obs.clone()];
     run_case(l, watch, wk, lib, None, &Case { fam: "paths/1", root_body: body, max_depth: 1 });
+    // siblings: after X has been included and left (possibly from another
+    // directory), a second include in the root file must still resolve
+    // against the root's directory.
+    for z in ["b.zone", "sub/b.zone", "deep/b.zone", "a.zone", "nowhere.zone"] {
+        for (t3, d3) in spellings(d, &d.join(z)) {
+            let body = vec![
+                head.clone(),
+                It::Include { text: text.clone(), denotes: den.clone(), origin: None },
+                obs.clone(),
+                It::Include { text: t3, denotes: d3, origin: None },
+                obs.clone(),
+            ];
+            run_case(l, watch, wk, lib, None, &Case { fam: "paths/siblings", root_body: body, max_depth: 1 });
+        }
+    }
     // two levels: X' = a file stored next to X that includes Y by several
     // spellings; X' is written per case into the worker directory, so the
     // root includes X' instead of X.
@@ -1032,6 +1048,10 @@ fn paths_family(l: &mut Local, watch: &Watch, wk: &Work, lib: &Lib, p1: usize) {
             let xtext = pathdiff(d, &xp.store).to_str().unwrap().to_string();
             let body = vec![head.clone(), inc(&xtext, None), obs.clone()];
             run_case(l, watch, wk, lib, Some(&xp), &Case { fam: "paths/2", root_body: body, max_depth: 2 });
+            // the same, and back in the root a second include by a bare name:
+            // two returns (from Y to X', from X' to the root) lie before it
+            let body = vec![head.clone(), inc(&xtext, None), obs.clone(), inc("b.zone", None), obs.clone()];
+            run_case(l, watch, wk, lib, Some(&xp), &Case { fam: "paths/2+sibling", root_body: body, max_depth: 2 });
             let _ = std::fs::remove_file(&xp.store);
         }
     }
